@@ -4,9 +4,12 @@
    Proved as well (Proofs/ParseIdx.v): on EVERY pattern that is valid UTF-8 the parser reaches
    none of its panic arms (every slice / index / unwrap of parse.rs is an explicit Panic outcome of
    the model): the invariant is that every index between tokens is a character boundary.
-   Validated (T1 + Regex::new under catch_unwind / address-space limit), not proved: that the
-   linear fuel always suffices (termination of the real parser). *)
-From FR Require Import Base Utf8 Utf8Facts Ast Analyze Parse Escape ExprLemmas SemSound ParseInv ParseIdx.
+   And the model is TOTAL (Proofs/ParseFuel.v): its linear fuel never runs out - a call at offset
+   ix and nesting depth d needs at most (|pattern| - ix) + 6 * (64 - d) + 6 units, because every
+   loop of the parser advances by at least one byte per iteration and nesting is bounded by the
+   recursion guard - so [parse] returns Ok, a ParseError inside the pattern, or NamedBackrefOnly.
+   Not modelled: time, allocation and native stack of the Rust code (runtime behaviour). *)
+From FR Require Import Base Utf8 Utf8Facts Ast Analyze Parse Escape ExprLemmas SemSound ParseInv ParseIdx ParseFuel.
 From Coq Require Import NArith Lia.
 
 Lemma sat_add_bounded a b : (sat_add a b <= usize_max)%N.
@@ -59,6 +62,20 @@ Proof.
   split; [|reflexivity]. repeat constructor; cbn; auto.
 Qed.
 
+
+(* the parser is total on every pattern that is valid UTF-8: a tree with well-formed literals, a
+   parse error whose position is at most the pattern length, or NamedBackrefOnly; never a panic,
+   never out of fuel (so the fuel of the model is no escape hatch: every parser theorem above
+   speaks about a run that terminates on its own) *)
+Theorem C06_parse_total : forall re, valid_text re ->
+  match parse re with
+  | POk (e, _) => wfe e
+  | PErr p _ => p <= length re
+  | PNamedBackrefOnly => True
+  | PPanic | PFuel => False
+  end.
+Proof. exact parse_total. Qed.
+
 Theorem C06_fuel_is_linear : forall re, parse_fuel re = 12 * (length re + 80).
 Proof. reflexivity. Qed.
 
@@ -76,3 +93,4 @@ Print Assumptions C06_fuel_is_linear.
 Print Assumptions C06_parse_never_panics.
 Print Assumptions C06_parse_tree_wellformed.
 Print Assumptions C06_error_position.
+Print Assumptions C06_parse_total.
